@@ -65,12 +65,13 @@ class World:
             p = np.arange(N1, dtype=float)
         else:
             p = np.array(src.d1.get_component(src.d1.id["p"]).data)
-        self.d1 = Data(label="d1", p=p)
+        self.d1 = Data(label="d1", p=p, q=(p * p - 3.0))      # two possible sources for the link to d0.a
         self.dc = DataCollection([self.d0, self.d1])
         self.link_kind = spec["link"] if src is None else src.link_kind
+        self.link_src = "p" if src is None else src.link_src
         self.link = None
         if self.link_kind:
-            self.link = ComponentLink([self.d1.id["p"]], self.d0.id["a"], using=LINK_FUNCS[self.link_kind])
+            self.link = self.make_link(self.link_kind, self.link_src)
             self.dc.add_link(self.link)
         self.groups = []
         if src is None:
@@ -80,15 +81,37 @@ class World:
             for g in src.groups:
                 self.groups.append(self.dc.new_subset_group(subset_state=rebuild_state(g.subset_state, src.d0, self.d0)))
 
-    def relink(self, kind):
+    def make_link(self, kind, src):
         from glue.core.component_link import ComponentLink
-        if self.link is not None:
-            self.dc.remove_link(self.link)
-            self.link = None
+        if kind == "identity":
+            return ComponentLink([self.d1.id[src]], self.d0.id["a"])
+        return ComponentLink([self.d1.id[src]], self.d0.id["a"], using=LINK_FUNCS[kind])
+
+    def relink(self, kind, src="p", how=0):
+        """how: 0 remove then add, 1 set_links, 2 both inside delay_link_manager_update, 3 list forms"""
+        old = self.link
+        new = self.make_link(kind, src) if kind else None
+        if how == 1:
+            self.dc.set_links([new] if new is not None else [])
+        elif how == 2:
+            with self.dc.delay_link_manager_update():
+                if old is not None:
+                    self.dc.remove_link(old)
+                if new is not None:
+                    self.dc.add_link(new)
+        elif how == 3:
+            if old is not None:
+                self.dc.remove_link([old])
+            if new is not None:
+                self.dc.add_link([new])
+        else:
+            if old is not None:
+                self.dc.remove_link(old)
+            if new is not None:
+                self.dc.add_link(new)
+        self.link = new
         self.link_kind = kind
-        if kind:
-            self.link = ComponentLink([self.d1.id["p"]], self.d0.id["a"], using=LINK_FUNCS[kind])
-            self.dc.add_link(self.link)
+        self.link_src = src
 
 
 def map_cid(cid, src, dst):
@@ -384,11 +407,13 @@ def fn_history(spec, rec):
             g.subset_state = gen.build_state(spec["spare"], w.d0)
             tag = "replace-state"
         elif kind == "relink":
-            new = [None, "shift", "double"][op[1] % 3]
-            if new == w.link_kind:
+            new = [None, "shift", "double", "identity"][op[1] % 4]
+            src = "pq"[(op[2] if len(op) > 2 else 0) % 2]
+            if new == w.link_kind and (new is None or src == w.link_src):
                 continue
-            w.relink(new)
-            tag = "link-change"
+            how = (op[3] if len(op) > 3 else 0) % 4
+            w.relink(new, src, how)
+            tag = "link-change" + ("" if how == 0 else ":" + ["", "set_links", "delayed", "lists"][how])
         else:
             raise ValueError(kind)
         gc.collect()
@@ -556,7 +581,7 @@ core_op = st.one_of(
     st.tuples(st.just("edit"), idx, idx, idx, idx), st.tuples(st.just("edit"), idx, idx, idx, idx), st.tuples(st.just("edit"), idx, idx, idx, idx),
     st.tuples(st.just("move_group"), idx),
     st.tuples(st.just("replace_state"), idx),
-    st.tuples(st.just("relink"), idx),
+    st.tuples(st.just("relink"), idx, idx, idx),
 ).map(list)
 
 
